@@ -77,6 +77,9 @@ def run_cases(cases):
     return out
 
 
+EXEMPT = [0]      # state-lock acquisitions inside BreakerBase::drop left out (see parse)
+
+
 def klass(name):
     return name.rsplit("#", 1)[0]
 
@@ -87,6 +90,7 @@ def parse(obs, ops):
     events = m.group(1).split(";") if m else []
     per_op, cur, tried = [], [], set()
     last_try = None
+    exempt = EXEMPT
     for e in events:
         tok = e.split("~")
         if len(tok) < 2:
@@ -106,6 +110,13 @@ def parse(obs, ops):
                 tried.discard(tok[2])
             else:
                 cur.append(("rel", klass(tok[2])))
+        elif tok[1] == "note" and len(tok) > 2 and tok[2].startswith("ev="):
+            # a listener notification; it does not end an operation. The drop notification is preceded by
+            # `current_state()` of the breaker being dropped: that breaker is unreachable by any other thread
+            # (ownership: it is inside its own Drop), so this acquisition cannot block and is left out of the ranking.
+            if ">Dropped" in tok[2] and len(cur) >= 2 and cur[-1][0] == "rel" and cur[-2] == ("acq", cur[-1][1]) and cur[-1][1].endswith(":State"):
+                cur = cur[:-2]
+                exempt[0] += 1
         elif tok[1] == "note":
             per_op.append(cur)
             cur = []
@@ -156,15 +167,24 @@ def main():
     classes = sorted({c for _, seq in traces for _, c in seq})
     idx = {c: i for i, c in enumerate(classes)}
     edges = set()
-    for _, seq in traces:
+    edge_ops = {}
+    for tname, seq in traces:
         held = []
         for k, c in seq:
             if k == "acq":
                 for h in held:
                     edges.add((h, c))
+                    edge_ops.setdefault((h, c), tname.split(":", 1)[1] if ":" in tname else tname)
                 held.append(c)
             elif c in held:
                 held.remove(c)
+    # operations that take two locks in opposite orders (or one lock twice): candidates for a deadlocking schedule
+    inversions = []
+    for (a, b), op1 in sorted(edge_ops.items()):
+        if a == b:
+            inversions.append({"locks": [a, b], "ops": [op1, op1]})
+        elif (b, a) in edge_ops and a < b:
+            inversions.append({"locks": [a, b], "ops": [op1, edge_ops[(b, a)]]})
     # Kahn; on a cycle the remaining nodes get the next ranks in name order (the Lean check then fails and names the trace)
     indeg = {c: 0 for c in classes}
     for a, b in edges:
@@ -208,7 +228,8 @@ def main():
             lines.append(f'  ("{name}", [{acts}])')
         f.write(",\n".join(lines) + "]\n\n")
         f.write("end Sentinel.Conc.Generated\n")
-    summary = {"lock_classes": len(classes), "traces": len(uniq), "operations_recorded": len(traces), "nested_pairs": len(edges), "cycle_among": cyclic, "problems": problems}
+    summary = {"lock_classes": len(classes), "traces": len(uniq), "operations_recorded": len(traces), "nested_pairs": len(edges), "cycle_among": cyclic, "inversions": inversions, "setup": SETUP, "problems": problems,
+               "exempted_acquisitions": {"state mutex of a breaker inside its own Drop (unreachable by other threads)": EXEMPT[0]}}
     with open(os.path.join(WORK, "C15_traces.json"), "w") as f:
         json.dump(summary, f, indent=1)
     print(json.dumps(summary))
